@@ -413,6 +413,11 @@ def _gp_prim_cases(rng, tier):
         for ax in (0, 1):
             yield Case("pypat.maxaxis%d" % ax, [r, c, M], lambda M=M, ax=ax: np.max(f64(M), axis=ax).tolist(),
                        tag="prim maxaxis%d" % ax, info={"op": "pypat.maxaxis"})
+        rows = [rng.randint(0, r if rng.random() < 0.1 else r - 1) for _ in range(rng.randint(1, 4))]
+        cols = [rng.randint(0, c - 1) for _ in range(rng.randint(1, 4))]
+        yield Case("pypat.ix", [M, rows, cols],
+                   lambda M=M, rows=rows, cols=cols: f64(M)[np.ix_(np.asarray(rows), np.asarray(cols))].tolist(),
+                   tag="prim ix", info={"op": "pypat.ix"})
         a, b = rng.randint(0, 5), rng.choice([0, 1, 2, 3])
 
         def div(a=a, b=b):
